@@ -15,10 +15,13 @@ Desc(S) == SetToSortSeq(S, >)
 Carriers == {"field", "newtype", "vfield", "alias", "const"}
 Wrappers == {"direct", "vec", "option", "mapk", "mapv", "array", "slice", "garg", "garg_unknown", "garg_nested"}
 BKinds == {"struct", "unit_enum", "tagged_enum", "alias"}
-NoProg == [carrier |-> "", wrapper |-> "", renamed |-> FALSE, bkind |-> ""]
+NoProg == [carrier |-> "", wrapper |-> "", renamed |-> FALSE, bkind |-> "", ovr |-> ""]
 \* two-item programs A -> B: one reference, written in every carrier x container x (B renamed?) x kind of B
-Progs == {p \in [carrier : Carriers, wrapper : Wrappers, renamed : BOOLEAN, bkind : BKinds] :
-             p.carrier = "const" => p.wrapper \in {"direct", "array"}}
+\* ovr: the referencing field carries a #[typeshare(<lang>(type = ".."))] override for ANOTHER language than the
+\* generated one ("scala" / "typescript"); the reference is still written in the generated language, so P still orders it
+Progs == {p \in [carrier : Carriers, wrapper : Wrappers, renamed : BOOLEAN, bkind : BKinds, ovr : {"none", "scala", "typescript"}] :
+             /\ p.carrier = "const" => p.wrapper \in {"direct", "array"}
+             /\ p.ovr # "none" => p.carrier \in {"field", "vfield"}}
 
 Init == \/ /\ mode = "graph" /\ G \in [Nodes -> SUBSET Nodes] /\ perm = <<>> /\ prog = NoProg
         \/ /\ mode = "perm" /\ G = [x \in Nodes |-> {}] /\ prog = NoProg
